@@ -22,7 +22,7 @@ chk("C16",
     "read-only, output shape, byte-offset map out[g,n,w] = arr[n, g*S+w*D], in-bounds, greedy maximality. (b) the real validation "
     "prefixes of ConvND/MaxPoolND on symbolic integers composed with (a): accepted => valid, valid => accepted (known finding F3 "
     "for dilated conv is split off by its arithmetic signature). (c) forward terms of conv_nd (every 1-D configuration in a box, "
-    "listed 2-D), max_pool, batchnorm, softmax, logsoftmax, gru (T=2) and the six losses on symbolic reals vs naive nested-loop "
+    "listed 2-D), max_pool, batchnorm, softmax, logsoftmax, gru (T=2; and with a symbolic non-zero initial state) and the six losses on symbolic reals vs naive nested-loop "
     "evaluation of the documented formula (z3 equality), invalid configurations must raise.",
     "Trusted: as_strided (recorded, not executed, in the integer lane), fake C-contiguous array model with itemsize 8, NumPy "
     "object loops, the naive formulas written in the harness, numba kernels as .py_func. Per fixed rank; induction over rank not made.",
@@ -33,7 +33,8 @@ chk("C15",
     "z3 discharges frame (enter writes only key depth, exit pops only key depth-1), restore (enter;exit returns switch, depth and "
     "tracker to the pre-state) and decorator (body runs inside, exit executed when the body raises) obligations; the induction over "
     "well-nested sequences is on paper and cross-checked by executing every well-nested forest of <=3 (thorough 4) scopes with an "
-    "exception at each position. (b) 18 programs (views, in-place, out=, shape assignment) inside no_autodiff: z3 decides the values "
+    "exception at each position. (b) 18 programs (views, in-place, out=, shape assignment) inside no_autodiff, alone and with mem_guard_on / "
+    "mem_guard_off nested inside or around it; backward() called inside no_autodiff on every tensor of a graph recorded outside must change nothing: z3 decides the values "
     "equal the tracked run for all real inputs; creator/base/_ops/grads/locks/array identity observed per path.",
     "Trusted: z3 array theory + quantified invariant; well-nested use (no generators suspended in a scope, no threads); dtype equality "
     "is left to the dtype lane of C03.",
@@ -42,7 +43,9 @@ chk("C15",
 chk("C04",
     "Histories are the enumerated input: every well-typed program of <=3 statements (thorough: + strided 4-statement programs with "
     ">=2 in-place statements) over view / non-view / in-place templates (item assignment incl. advanced, boolean and self-overlapping "
-    "indices, augmented assignment, ufunc out= with where=, .shape assignment) from a base of shape (6,) or (2,3). Data are symbolic and "
+    "indices, augmented assignment, ufunc out= with where=, .shape assignment) from a base of shape (6,) or (2,3), C-ordered or not; plus a "
+    "4-statement family (two views, .shape assigned, one update) and a constant-flag family (constant / non-constant base, views created with an "
+    "explicit constant=, one in-place statement on any member). Data are symbolic and "
     "pairwise distinct; after EVERY statement all live tensors are compared with the NumPy twin (same source lines, mg. -> np., on "
     "object ndarrays): element terms by z3, np.shares_memory for all pairs, .base identity, id(t), constant flag.",
     "Trusted: NumPy executing the mutations of the twin; 0-d tensors correspond to 0-d arrays (NumPy scalars are wrapped); literal "
@@ -59,7 +62,8 @@ chk("C05",
     "base grad) and C05 are jointly satisfiable.",
     "exhaustive program enumeration + symbolic execution + SMT equivalence against derivative of functional NumPy twin", "DESIGN §3 C05")
 chk("C09",
-    "Histories are the enumerated input: 4 graph shapes in which L shares a leaf, a view or an intermediate with a second result, times "
+    "Histories are the enumerated input: 6 graph shapes in which L shares a leaf, a view, an intermediate or a constant tensor with a second result "
+    "(which may itself go through a view of the shared tensor), raw memory writes that the guard must refuse among the events, times "
     "every sequence of <=3 events (thorough: + strided 4-event sequences) from {backward / clear_graph on the other result, in-place "
     "update of the shared tensor or of a view of it, re-use of a shared tensor in a new op or view, null_grad}, then L.backward(). "
     "Data are symbolic; the outcome must be InvalidBackprop or, decided by z3 for all real inputs, every gradient equals the "
@@ -68,16 +72,17 @@ chk("C09",
     "Trusted: reference differentiator, NumPy twin. Histories beyond the bound and more than three graphs are outside.",
     "exhaustive history enumeration + symbolic execution + SMT equivalence against recorded forward term", "DESIGN §3 C09")
 chk("C06",
-    "Programs are the enumerated input: bases (6,), (2,3), (3,3); every legal chain of <=2 (thorough: + strided length-3) view ops out of "
+    "Programs are the enumerated input: bases (6,), (2,3), (3,3), (2,1,3), C-ordered or not; readers that are products or matmul-type ops; a "
+    "two-epoch family (a view left from a back-propagated graph becomes the base of new views); every legal chain of <=2 (thorough: + strided length-3) view ops out of "
     "15 (slices, strides, integer index, newaxis, T, reshape, swapaxes, moveaxis, expand_dims, squeeze, diagonal einsum); every ordered "
     "selection of <=3 readers among base and views, i.e. every order in which gradient contributions arrive; optional second pass on the "
     "base. Per program (symbolic data): v.grad is available iff b.grad is, its terms equal the view chain re-applied to b.grad (z3), "
     "np.shares_memory(v.grad, b.grad), a write-through probe with fresh symbols, no aliasing between gradients of non-sharing tensors, "
     "and gradients read None once the base is re-used.",
-    "Trusted: NumPy's view functions re-applied by the harness to the gradient array. Views of views across epochs are outside.",
+    "Trusted: NumPy's view functions re-applied by the harness to the gradient array. Epochs beyond two are outside.",
     "exhaustive program/schedule enumeration + symbolic execution + SMT term equality and aliasing probes", "DESIGN §3 C06")
 chk("C07",
-    "15 step programs x 6 between-iteration actions x 2 (thorough 3) forward/backward iterations, every feasible path with symbolic "
+    "18 step programs (three with view chains L does not consume around an in-place update) x 9 between-iteration actions x 2 (thorough 3) forward/backward iterations, every feasible path with symbolic "
     "data. Solver part: the gradient terms of every later iteration are structurally identical (same unsimplified term DAG, i.e. the "
     "same operation sequence on the same operands, hence bit-identical floats) to those of iteration 0, and z3 refutes any value "
     "difference (accumulation). Observed on every path with the cyclic GC disabled: L and every tensor upstream of it has no creator "
@@ -89,7 +94,7 @@ chk("C07",
     "symbolic execution + structural term identity and SMT value equality across iterations; concrete heap observation per path", "DESIGN §3 C07")
 chk("C13",
     "Fault injection by enumeration: C04-grammar programs (<=2 statements, thorough + strided 3) with consumers; one failing statement "
-    "of each of 16 kinds (shape-incompatible op, bad axis / index / advanced index / reshape / transpose / einsum / matmul / concatenate, "
+    "of each of 20 kinds (integer result forced non-constant - refused after the forward pass -, Python scalar overflowing a small integer dtype, shape-incompatible op, bad axis / index / advanced index / reshape / transpose / einsum / matmul / concatenate, "
     "failing item- and augmented assignment on a base or a view, wrong out=, wrong where= shape, bad .shape, natively read-only target) "
     "inserted at every position. Differential within one run on identical symbols: with vs. without the failing statement; right after "
     "the failure and at the end every live tensor's data terms, constant flag, base, creator/consumer counts, view children, memory-"
@@ -110,17 +115,20 @@ chk("C14",
 chk("C10",
     "Leaf constant flags are SYMBOLIC booleans: leaves are instances of a harness-side Tensor subclass whose `constant` property forks; the "
     "untouched library decides each flag where it reads it (Tensor._op inference, Operation.backward skip, Tensor.backward early exit, copy "
-    "inside _in_place_op), so every flag assignment it distinguishes is a path of 18 programs (views, set-item, augmented assignment, "
+    "inside _in_place_op), so every flag assignment it distinguishes is a path of 23 programs and of every C02 operation body without an in-place "
+    "statement (sweep: result constant iff no operand is a non-constant tensor, also with bare-array and constant-tensor operands; "
+    "constants never acquire .grad); programs (views, set-item, augmented assignment, "
     "out=/where=, reductions, matmul, einsum, where, concatenate, constant=True/False on functions and methods). Per path: result and "
     "intermediate flags follow the documented rule (all-inputs-constant unless overridden; in-place target keeps its flag), constants "
     "have grad None, and z3 decides for all real inputs that the other gradients equal the reference derivative with constants held "
     "fixed AND the gradients of the same program with every constant tensor replaced by a bare ndarray. Dtype rules (int/bool always "
     "constant, constant=False raises, float default, non-bool flag rejected) on concrete tensors.",
-    "Trusted: reference differentiator; hand-written expected-flag rule per program. Programs outside the list are outside.",
+    "Trusted: reference differentiator; hand-written expected-flag rule per program; one generic rule for the sweep.",
     "symbolic execution with symbolic boolean flags (path per flag assignment) + SMT gradient equivalence against two oracles", "DESIGN §3 C10")
 chk("C12",
     "Driver = every C02 case (all differentiable operations and option combinations, incl. the hand-written backward()s of GRU, sequence "
-    "ops, focal loss, einsum) plus 15 aliasing-prone programs. On every feasible path with symbolic data (each element a distinct term): "
+    "ops, focal loss, einsum) plus 15 aliasing-prone programs and 16 masked ufunc calls with same-shape operands; each body also runs with all "
+    "leaf elements 0 and all 1 (degenerate points excluded by the gradient checks' domain assumptions). On every feasible path with symbolic data (each element a distinct term): "
     "the arrays tensors were built from, caller-owned constant arrays, index and mask objects, every input tensor's data and the symbolic "
     "seed handed to backward(g) are unchanged after the forward call and after backward (explicit out= targets exempt); backward never "
     "changes any tensor's data; gradient arrays of tensors that do not share memory do not share memory; a write probe (fresh symbols "
@@ -153,7 +161,7 @@ chk("C17",
     "comparisons on ndmin fork in the engine and every path is compared with numpy.array(..., ndmin=k); data are symbolic and an aliasing "
     "probe writes fresh symbols into the source, deciding by term identity whether the result saw them (copy by default; copy=False / "
     "astensor reuse memory; astensor(t) is t with graph and gradient intact). Enumeration part, on the unpatched library: makers {tensor, "
-    "Tensor, astensor, asarray} x sources x copy x dtype {None, same, other} x constant (dtype, memory sharing, write-through, pass-through "
+    "Tensor, astensor, asarray} x sources (arrays incl. transposed / strided / F-ordered, tensors, lists, scalars, array.array, memoryview, an object with __array__) x copy x dtype {None, same, other} x constant (dtype, memory sharing, write-through, pass-through "
     "identity); copy()/astype() detached, independent and value-equal; ~600 creation-routine calls (zeros, ones, empty, full, *_like, arange, "
     "linspace, logspace, geomspace, eye, identity) equal to NumPy in value, shape and dtype with the documented float32 default; non-real "
     "dtypes rejected while tracking and accepted inside no_autodiff.",
@@ -170,17 +178,21 @@ chk("C18",
     "symbolic execution with environment stub (savez/load contract) + term identity; real-file enumeration for dtype facts", "DESIGN §3 C18")
 chk("C08",
     "(a) one inductive step of the lock manager: the real lock_arr_writeability / _release_lock_on_arr_writeability run from a SYMBOLIC "
-    "pre-state over the universe {base B, view V of B, stand-alone S}: counters are unbounded symbolic integers, tracker membership, "
+    "pre-state over the universe {base B, view V of B, stand-alone S, array F over a foreign buffer (its .base is not an array)}: counters are unbounded symbolic integers, tracker membership, "
     "writeable flags and the waiting set are symbolic booleans (the code's `is True`/`is False` tests fork), constrained by a "
     "representation invariant; z3 discharges for {lock, force-lock, release} x {B, V, S} that the invariant is preserved, other arrays' "
     "counters are untouched, a locked array is read-only, a natively read-only array is left alone, release decrements and, at zero, "
-    "restores the flag / parks a view on its read-only base / frees a waiting idle view. (b) Tensor-level histories, enumerated, concrete "
-    "flags: <=2 (thorough 3) of 7 graph-creating statements (user array, natively read-only array, NumPy view, view taken while locked, "
-    "out= target, matmul, tensor sharing a user array), one backward / clear_graph / del / failing op at every position, then every "
+    "restores the flag / parks a view on its read-only base / frees a waiting idle view. (a') one whole operation (lock its arrays owner-first, then "
+    "release them) from a symbolic pre-state in which other operations hold any of them: z3 must refute 'an array nobody else holds ends with a flag "
+    "different from the one it had'; its counterexamples (the two flag combinations of the open known findings) are mapped to Tensor-level "
+    "histories and reported only if those reproduce. (b) Tensor-level histories, enumerated, concrete "
+    "flags: <=2 (thorough 3) of 15 graph-creating statements (user array, natively read-only array, NumPy view, view taken while locked, "
+    "out= target, out= views of one buffer, matmul, tensor sharing a user array, read-only view of a writeable owner, writeable view of a read-only "
+    "owner, array over a foreign buffer, in-place updates through a dropped view / out= temporaries / the tensor itself), one backward / clear_graph / del / failing op at every position, then every "
     "release order by del or clear_graph; after every statement and at quiescence (cyclic GC off) flags are compared with a 3-valued "
     "specification from a reference model of graph liveness that never looks at the lock tables; lock tables must be empty at the end.",
     "(a) is per fixed universe; the induction over histories is on paper and a step counterexample is never reported without a "
-    "reproducing history of (b). (b) is enumeration, not a solver verdict. In-place tensor updates inside a history are outside (their "
-    "lock release on failure is covered by C13, untracked mode by C15).",
+    "reproducing history of (b). (b) is enumeration, not a solver verdict. Arrays whose .base is neither an ndarray nor a buffer exporter "
+    "(as_strided) are outside.",
     "symbolic execution from a symbolic pre-state under a representation invariant (inductive step, z3) + exhaustive concrete histories against a liveness model",
     "DESIGN §3 C08, App. A")
